@@ -247,7 +247,7 @@ Proof.
     + intros v' id' I. apply tinsert_in in I as [[= -> ->]|I]; [exact Hk|].
       intros X. apply (Hd v' id' I). right. exact X.
     + split; [exact S1|]. rewrite P1, (tinsert_perm (v, id) acc Hs Hni).
-      change (swap (id, v)) with (v, id). symmetry. apply Permutation_middle.
+      change (swap (id, v)) with (v, id). simpl. apply Permutation_middle.
 Qed.
 
 Lemma inv_step c o : Inv c -> Inv (step c o).
@@ -349,15 +349,15 @@ Proof.
   rewrite filter_neq_in in Hd.
   unfold node_updated in *.
   destruct (alookup id (c_refs c)) as [cached|] eqn:E1.
-  2:{ destruct (N.eq_dec id' id) as [->|Hne]; [congruence|]. apply Hoth; auto. tauto. }
+  2:{ destruct (N.eq_dec id' id) as [->|Hne]; [congruence|]. apply Hoth; auto; tauto. }
   destruct (Hobj cached eq_refl) as [o Eo]. rewrite Eo in *.
   destruct (cached =? score (c_pol c) o) eqn:E3.
   - destruct (N.eq_dec id' id) as [->|Hne].
     + exists o. split; auto. apply Z.eqb_eq in E3. congruence.
-    + apply Hoth; auto. tauto.
+    + apply Hoth; auto; tauto.
   - simpl in *. destruct (N.eq_dec id' id) as [->|Hne].
     + rewrite alookup_aset_same in Hl. injection Hl as <-. exists o. auto.
-    + rewrite alookup_aset_other in Hl by auto. apply Hoth; auto. tauto.
+    + rewrite alookup_aset_other in Hl by auto. apply Hoth; auto; tauto.
 Qed.
 
 Definition HasObj (c : coll) : Prop :=
@@ -379,16 +379,16 @@ Proof. reflexivity. Qed.
 Lemma cur_step c d o : Inv c -> HasObj c -> Cur c d ->
   HasObj (step c o) /\ Cur (step c o) (dirty_step c d o).
 Proof.
-  intros [Hn _] Ho Hc. destruct o as [id n|id|id k scores reserved|p]; simpl.
+  intros [Hn _] Ho Hc. unfold HasObj, Cur in *. destruct o as [id n|id|id k scores reserved|p]; simpl.
   - unfold registered. destruct (alookup id (c_refs c)) eqn:E; [auto|].
     set (obj := match alookup id (c_objs c) with Some x => x | None => n end).
     split.
     + intros id' v Hl. simpl in *. destruct (N.eq_dec id' id) as [->|Hne].
       * rewrite alookup_aset_same. eauto.
-      * rewrite alookup_aset_other in * by auto. eauto.
+      * rewrite alookup_aset_other in Hl by auto. rewrite alookup_aset_other by auto. eauto.
     + intros id' v Hl Hd. simpl in *. destruct (N.eq_dec id' id) as [->|Hne].
-      * rewrite alookup_aset_same in *. injection Hl as <-. eauto.
-      * rewrite alookup_aset_other in * by auto. apply Hc; auto.
+      * rewrite alookup_aset_same in Hl. rewrite alookup_aset_same. injection Hl as <-. eauto.
+      * rewrite alookup_aset_other in Hl by auto. rewrite alookup_aset_other by auto. apply Hc; auto.
         intros I. apply Hd. apply filter_neq_in. auto.
   - destruct (alookup id (c_refs c)) as [cached|] eqn:E.
     + split.
@@ -445,7 +445,8 @@ Qed.
 Lemma run_g_fst p ops : fst (run_g p ops) = run p ops.
 Proof.
   unfold run_g, run. generalize (init p) ([] : list N).
-  induction ops as [|o t IH]; intros c d; simpl; auto.
+  induction ops as [|o t IH]; intros c d; [reflexivity|].
+  cbn [fold_left]. unfold step_g at 2. cbn [fst snd]. apply IH.
 Qed.
 
 Lemma cur_run p ops :
@@ -481,8 +482,9 @@ Definition op_notifies (o : cop) : bool :=
 Lemma dirty_nil p ops : forallb op_notifies ops = true -> snd (run_g p ops) = [].
 Proof.
   unfold run_g. generalize (init p).
-  induction ops as [|o t IH]; intros c H; simpl; auto.
+  induction ops as [|o t IH]; intros c H; [reflexivity|].
   simpl in H. apply andb_true_iff in H as [H1 H2].
+  cbn [fold_left]. unfold step_g at 2. cbn [fst snd].
   replace (dirty_step c [] o) with ([] : list N); [apply IH; exact H2|].
   destruct o as [id n|id|id k scores reserved|q]; simpl; auto.
   - destruct (registered c id); reflexivity.
